@@ -577,6 +577,10 @@ class CAstTypes(object):
                     arg_name = arg.name
                 args.append((arg_name, self.ast_to_typeid(arg)))
         decl = CTypeStruct(name, args)
+        if ast.decls and ast.name is not None:
+            # A tag defined inside another declaration stays visible after it
+            if not self.is_known_type(CTypeStruct(ast.name)):
+                self.add_type(CTypeStruct(ast.name), decl)
         return decl
 
     def ast_to_typeid_union(self, ast):
@@ -591,6 +595,10 @@ class CAstTypes(object):
                     arg_name = arg.name
                 args.append((arg_name, self.ast_to_typeid(arg)))
         decl = CTypeUnion(name, args)
+        if ast.decls and ast.name is not None:
+            # A tag defined inside another declaration stays visible after it
+            if not self.is_known_type(CTypeUnion(ast.name)):
+                self.add_type(CTypeUnion(ast.name), decl)
         return decl
 
     def ast_to_typeid_identifiertype(self, ast):
